@@ -626,13 +626,14 @@ def compare(case, model_line, real):
 
 
 def mk_case(call=None, kind=("gen",), steps=(), version="1.1", conn=None, head=False, err=None, disc=None,
-            has_close=True, close_exn=None, expose=False, logsock=True, ident="waitress", cclose=False, **kw):
+            has_close=True, close_exn=None, expose=False, logsock=True, ident="waitress", cclose=False, tb=None, **kw):
     app = {"call": [list(a) for a in (call or [])], "kind": list(kind),
            "steps": [{"acts": [list(x) for x in a], "res": list(r)} for a, r in steps],
            "has_close": has_close, "close_exn": close_exn}
     wc = bool(kw.pop("wc", False))
     app.update(kw)
-    return {"wc": wc, "cfg": {"ident": ident, "expose": expose, "logsock": logsock, "date": DATE, "tb": TB_MARK},
+    return {"wc": wc, "cfg": {"ident": ident, "expose": expose, "logsock": logsock, "date": DATE,
+                              "tb": TB_MARK if tb is None else tb},
             "req": {"version": version, "conn": conn, "head": head, "err": err, "cclose": cclose}, "disc": disc, "app": app}
 
 
@@ -747,6 +748,96 @@ def file_nobody_table():
                             out.append((("file-nobody", status, seekable, len(content), clmode, head, version, conn),
                                         mk_case([S(status, hs)], kind=("file", seekable), steps=steps, version=version,
                                                 conn=conn, head=head, block_size=bs, prefix=(2 if seekable else 0))))
+    return out
+
+
+# ---------------------------------------------------------------------------
+# the server's own error path fed hostile text: the traceback text (expose_tracebacks), the parser's
+# error message (it may quote request bytes) and the ident are INPUTS of Error.to_response
+
+HOSTILE_TEXTS = [
+    "%", "%s", "%d", "%(x)s", "%%", "disk is 100% full", "%s %s %s", "%c%r%a", "% ", "%(", "50%\n",
+    "{}", "{0}", "{ident}", "{", "}", "{{}}", "${x}", "\\", "\\n", "\\x00", "a\rb", "a\nb", "\r\n\r\n",
+    "\r\n\r\nHTTP/1.1 200 OK\r\nContent-Length: 0\r\n\r\n", "\x00", "\x7f", "\x85", "\xe9", "\u20ac", "\U0001f600",
+    "\u2028", "\ufeff", "", " ", "(generated by evil)", "x" * 5000, "%s" * 60, "\u20ac" * 700,
+    'Malformed header line "a%zb"', "Invalid header %41", "Traceback %(lineno)d\n  raise ValueError('%d' % n)\n",
+]
+HOSTILE_IDENTS = ["waitress", "", "srv%s", "a%", "{}", "{0}", "Id\xe9nt", "%(x)s", "srv\\1"]
+
+
+def expected_error_body(case, reason=None, body=None):
+    """Error.to_response's body, written down independently of waitress and of the model:
+    reason CRLF CRLF body CRLF CRLF "(generated by " ident ")" in UTF-8 ("server" when ident is empty).
+    For request.error: that error; else the ladder's 500 (traceback text iff expose_tracebacks)."""
+    cfg = case["cfg"]
+    if reason is None:
+        if case["req"]["err"] is not None:
+            reason = error_class(case["req"]["err"][0])[1]
+            body = case["req"]["err"][1]
+        else:
+            reason = "Internal Server Error"
+            body = cfg["tb"] if cfg["expose"] else "The server encountered an unexpected internal server error"
+    ident = cfg["ident"] or "server"
+    return (reason + "\r\n\r\n" + body + "\r\n\r\n(generated by " + ident + ")").encode("utf-8")
+
+
+def hostile_error_cases(rng, tier):
+    """error bodies / traceback texts / idents over a hostile alphabet, wherever the error path runs:
+    request.error answered by ErrorTask, and the ladder's 500 after an application failure before output
+    (expose_tracebacks on and off), GET and HEAD, a disconnect in the middle of the 500"""
+    out = []
+    mixes = [("1.1", None, False), ("1.0", "keep-alive", False), ("1.1", "close", True), ("1.0", None, False),
+             ("1.1", "keep-alive", True)]
+    failing = [
+        ("raises in the call", [["R", "XE"]], []),
+        ("refused start_response", [S("200 OK\r\n", [])], []),
+        ("raises in the first iteration", [S("200 OK", [("X-A", "1")])], [RZ("XE")]),
+        ("BaseException in the call", [["R", "XB"]], []),
+        ("OSError in the call", [["R", "XO"]], []),
+    ]
+    k = 0
+    for text in HOSTILE_TEXTS:
+        # request.error: every error class the parser produces
+        for cls, _ in ERROR_CLASSES:
+            version, conn, head = mixes[k % len(mixes)]
+            ident = HOSTILE_IDENTS[k % len(HOSTILE_IDENTS)] if k % 3 == 0 else "waitress"
+            k += 1
+            out.append((("hostile error body", cls, repr(text)[:24], head, repr(ident)),
+                        mk_case(version=version, conn=conn, head=head, err=[cls, text], ident=ident)))
+        # the ladder's 500: the text is the traceback
+        for tag, call, steps in failing:
+            for expose in (True, False):
+                for tb in (text, TB_MARK + text + "\n"):
+                    version, conn, head = mixes[k % len(mixes)]
+                    ident = HOSTILE_IDENTS[k % len(HOSTILE_IDENTS)] if k % 3 == 0 else "waitress"
+                    k += 1
+                    out.append((("hostile traceback", tag, repr(text)[:24], expose, head, repr(ident)),
+                                mk_case(call, steps=steps, version=version, conn=conn, head=head, expose=expose,
+                                        ident=ident, tb=tb)))
+        # a disconnect while the 500 is written
+        for disc in (1, 2):
+            out.append((("hostile traceback, client gone", repr(text)[:24], disc),
+                        mk_case([["R", "XE"]], expose=True, tb=text, disc=disc)))
+    # every ident with a plain and a hostile text
+    for ident in HOSTILE_IDENTS:
+        for text in ("plain", "100% {}"):
+            out.append((("hostile ident", repr(ident), text), mk_case([["R", "XE"]], expose=True, tb=text, ident=ident)))
+            out.append((("hostile ident, request.error", repr(ident), text),
+                        mk_case(err=["BadRequest", text], ident=ident, version="1.0", conn="keep-alive")))
+    # random texts over the alphabet
+    alpha = ["%", "s", "d", "(", ")", "{", "}", "0", "\\", "\r", "\n", "\x00", "\u20ac", "\U0001f600", "a", " ", "\xe9"]
+    n = 150 if tier == "quick" else 3000
+    for _ in range(n):
+        text = "".join(rng.choice(alpha) for _ in range(rng.choice([1, 2, 3, 5, 8, 40])))
+        version, conn, head = rng.choice(mixes)
+        if rng.random() < 0.5:
+            out.append((("random hostile traceback",), mk_case([["R", rng.choice(FAULT_CLASSES)]], version=version, conn=conn,
+                                                              head=head, expose=rng.random() < 0.8, tb=text,
+                                                              ident=rng.choice(HOSTILE_IDENTS))))
+        else:
+            out.append((("random hostile error body",), mk_case(version=version, conn=conn, head=head,
+                                                               err=[rng.choice(ERROR_CLASSES)[0], text],
+                                                               ident=rng.choice(HOSTILE_IDENTS))))
     return out
 
 
@@ -1275,7 +1366,7 @@ def fault_cases(rng, tier):
                         out.append((("error task", cls), mk_case(version=version, conn=conn, err=[cls, body], disc=disc, ident=ident)))
                     # the same error answered to a HEAD request: no body is written (one write_soon less)
                     out.append((("error task", cls, "HEAD"), mk_case(version=version, conn=conn, err=[cls, body], disc=disc, head=True)))
-    return out
+    return out + hostile_error_cases(rng, tier)
 
 
 def random_script(rng):
@@ -1426,4 +1517,4 @@ def framing_cases(rng, tier):
         for conn in CONNS:
             c = mk_case([["R", "XE"]], version=version, conn=conn)
             out.append((("ladder 500", version, conn), c))
-    return out + ladder_500_table() + file_nobody_table()
+    return out + ladder_500_table() + file_nobody_table() + hostile_error_cases(rng, tier)
